@@ -87,6 +87,9 @@ def latin1_text(max_size=40):
     base = sizes.flatmap(lambda n: st.lists(alpha, min_size=n, max_size=n)).map(''.join)
     # C strings with their terminator, NUL padding, format-string look-alikes
     return st.one_of(base, base, base, base.map(lambda t: t + '\x00'), st.sampled_from(['\x00', 'ab\x00\x00', '{0}', '{verse 1}',
+                                                                                      # texts that look like the repr of something
+                                                                                      'Verse (x2), Chorus(x4)', 'see f(a), g(b)', "a', time=0), Message('x",
+                                                                                      '), MetaMessage(', '[1, 2], [', 'x),\n  y(', 'MidiTrack([',
                                                                                       'intro}', '{{x}}', '%s %d', '\xef\xbb\xbfabc',
                                                                                       '\xef\xbb\xbf\xe6\xad\x8c \xc3\xa9', '\xff\xfeab', '\ufeffx'.encode('utf-8').decode('latin1')]))
 
